@@ -2377,8 +2377,15 @@ class ProvDocument(ProvBundle):
 
         :return: :py:class:`ProvDocument`
         """
-        document = ProvDocument(self._unified_records())
-        document._namespaces = self._namespaces
+        # the new document gets its own namespace manager holding the same
+        # declarations (sharing the manager would let later changes of either
+        # document leak into the other)
+        document = ProvDocument(namespaces=self.namespaces)
+        default_ns_uri = self.default_ns_uri
+        if default_ns_uri is not None:
+            document.set_default_namespace(default_ns_uri)
+        for record in self._unified_records():
+            document.add_record(record)
         for bundle in self.bundles:
             unified_bundle = bundle.unified()
             document.add_bundle(unified_bundle)
